@@ -390,6 +390,7 @@ func TestPaint(t *testing.T) {
 // Deterministic table: every ADJ at every selector edge, with and without a
 // preceding increment, painting from a register filled with a known colour.
 func TestSelectorTable(t *testing.T) {
+	harness.OnlyFirstShard(t)
 	st := harness.Counter("selector-table", "CSEL in {0,1,6,62,63} x ADJ 0-6 x {plain, after an incrementing write}: the path must be painted with the colour stored at (CSEL-ADJ) mod 64")
 	n := int64(0)
 	for _, sel := range []uint8{0, 1, 5, 6, 62, 63} {
